@@ -808,6 +808,30 @@ DRV_OP(link) {
         return std::string();
     });
 }
+// setlinks <rel> <holder> [slots] : the bulk setters — Tag / MultiTag::references(vector), EntityWithSources::sources(vector),
+// Group::dataArrays / dataFrames / tags / multiTags(vector): "replace what is linked by exactly these"
+DRV_OP(setlinks) {
+    if (a.size() != 4) throw ProtoError("setlinks arity");
+    return guarded([&]() {
+        const std::string &rel = a[1]; Ent &h = slot(a[2]);
+        std::vector<std::string> sl = tokList(a[3]);
+        if (rel == "ref") {
+            std::vector<nix::DataArray> v; for (auto &x : sl) v.push_back(x == "$-" ? nix::DataArray() : slot(x).a);
+            if (h.kind == 'T') h.t.references(v); else h.m.references(v);
+        } else if (rel == "src") {
+            std::vector<nix::Source> v; for (auto &x : sl) v.push_back(x == "$-" ? nix::Source() : slot(x).o);
+            switch (h.kind) {
+            case 'A': h.a.sources(v); break; case 'D': h.d.sources(v); break; case 'T': h.t.sources(v); break;
+            case 'M': h.m.sources(v); break; case 'G': h.g.sources(v); break; default: throw ProtoError("src holder");
+            }
+        } else if (rel == "mA") { std::vector<nix::DataArray> v; for (auto &x : sl) v.push_back(x == "$-" ? nix::DataArray() : slot(x).a); h.g.dataArrays(v); }
+        else if (rel == "mD") { std::vector<nix::DataFrame> v; for (auto &x : sl) v.push_back(x == "$-" ? nix::DataFrame() : slot(x).d); h.g.dataFrames(v); }
+        else if (rel == "mT") { std::vector<nix::Tag> v; for (auto &x : sl) v.push_back(x == "$-" ? nix::Tag() : slot(x).t); h.g.tags(v); }
+        else if (rel == "mM") { std::vector<nix::MultiTag> v; for (auto &x : sl) v.push_back(x == "$-" ? nix::MultiTag() : slot(x).m); h.g.multiTags(v); }
+        else throw ProtoError("setlinks rel " + rel);
+        return std::string();
+    });
+}
 // unlink <rel> <holder> <how> <key> => ok 0|1
 DRV_OP(unlink) {
     if (a.size() != 5) throw ProtoError("unlink arity");
